@@ -674,7 +674,10 @@ class Connection(ExportImport):
 
             # if we write an object, we don't want to check if it was read
             # while current.  This is a convenient choke point to do this.
-            self._readCurrent.pop(oid, None)
+            # (Not for a savepoint: a rollback can still take the write
+            # back; _commit_savepoint() does it for what is written.)
+            if self._storage is self._normal_storage:
+                self._readCurrent.pop(oid, None)
             if s:
                 # savepoint
                 obj._p_changed = 0  # transition from changed to up-to-date
